@@ -11,7 +11,7 @@ Open Scope N_scope.
 
 (* (1) on today's skeleton the lockset check fails as soon as the known pairs are not excluded *)
 Theorem c19_full_check_refuted :
-  lockset_check c19_prog (lookupL c19_must) skel_roots c19_excuse_full = false.
+  lockset_check c19_prog_full (lookupL c19_must_full) skel_roots c19_excuse_full = false.
 Proof. vm_compute. reflexivity. Qed.
 
 (* (2) the pattern, as a skeleton of its own, has a reachable configuration with both accesses enabled:
